@@ -210,10 +210,7 @@ fn eval_path_expr(
         expr::PathExpr::Path(filter, location) => {
             eval_filtered_loc_expr(filter, location, node.clone(), context)?.as_value()
         }
-        expr::PathExpr::Root => match node {
-            dom::XmlNode::Document(_) => vec![node].as_value(),
-            _ => vec![node.owner_document().unwrap().as_node()].as_value(),
-        },
+        expr::PathExpr::Root => vec![root(node)].as_value(),
     };
 
     Ok(nodes)
@@ -298,10 +295,7 @@ fn eval_filtered_loc_expr(
                     .collect(),
             }
         } else {
-            let root = match node {
-                dom::XmlNode::Document(_) => node,
-                _ => node.owner_document().unwrap().as_node(),
-            };
+            let root = root(node);
             match op {
                 expr::LocationPathOperator::Current => vec![root],
                 expr::LocationPathOperator::DescendantOrSelfNode => descendant_and_self(root),
@@ -543,6 +537,16 @@ fn eval_func_expr(
 }
 
 // -----------------------------------------------------------------------------------------------
+
+/// The root node of the document that holds `node` (a namespace node has no owner document in the
+/// DOM, it knows its document itself).
+fn root(node: dom::XmlNode) -> dom::XmlNode {
+    match node {
+        dom::XmlNode::Document(_) => node,
+        dom::XmlNode::Namespace(ref v) => v.document().as_node(),
+        _ => node.owner_document().unwrap().as_node(),
+    }
+}
 
 /// The parent in the XPath data model: an attribute's parent is the element that bears it, the
 /// root has none.
